@@ -1223,6 +1223,10 @@ class Interp(object):
 
   def sym_pow(self, a, b, pt):
     # base 2 with a symbolic integer exponent
+    if isinstance(a, SNum):
+      sa = z3.simplify(a.e)
+      if (z3.is_int_value(sa) or z3.is_rational_value(sa)) and sa.numerator_as_long() == 2 and sa.denominator_as_long() == 1:
+        a = 2.0 if a.pytype != "int" else 2
     if not is_sym(a) and a == 2:
       eb = self.num(b)
       if eb.sort() == z3.IntSort():
